@@ -1,5 +1,6 @@
 /- Atto/Driver/Ops.lean — op dispatch. -/
 import Atto.Driver.Codec
+import Atto.Spec.TextSpec
 import Atto.Driver.SendOp
 import Atto.Driver.ProxyOp
 import Atto.Driver.MpOp
@@ -25,6 +26,13 @@ def opResp (args : List String) : String :=
        | .ok resp =>
          let evs : List Ev :=
            match rds.toList with
+           | 'T' :: rest =>
+             -- `text_utf8()`: read_to_end, then lossy UTF-8 (WHATWG maximal-subpart replacement)
+             (match (String.ofList rest).toNat? with
+              | some sz => match drain maxBuf sz resp.body with
+                 | (.ok bs, _) => [Ev.ok (String.ofList (decodeUtf8 bs)).toUTF8.toList]
+                 | (res, _) => [Ev.ofRR res]
+              | none => [])
            | 'B' :: rest =>
              (match (String.ofList rest).toNat? with
               | some sz => match drain maxBuf sz resp.body with
